@@ -755,6 +755,11 @@ func (n *RegexNode) eliminateEndingBacktracking() {
 	// Walk the tree starting from the current node.
 	node := n
 	for {
+		// "Ending" below means the last child; a right-to-left node (a right-to-left pattern, the
+		// content of a lookbehind) runs its children in the opposite order, so that child runs first.
+		if node.Options&RightToLeft != 0 {
+			break
+		}
 		switch node.T {
 		// {One/Notone/Set}loops can be upgraded to {One/Notone/Set}loopatomic nodes, e.g. [abc]* => (?>[abc]*).
 		// And {One/Notone/Set}lazys can similarly be upgraded to be atomic, which really makes them into repeaters
